@@ -6,11 +6,11 @@ def sh(cmd, cwd, timeout=900):
     p = subprocess.run(cmd, cwd=cwd, shell=True, capture_output=True, text=True, timeout=timeout)
     return p.returncode, (p.stdout + p.stderr)
 for pid in sys.argv[1:]:
-    out = f'/tmp/seed-out3/{pid}'
+    out = f'{os.environ.get("SEED_OUT", "/tmp/seed-out3")}/{pid}'
     cands = [(f'{out}/patch1.diff', f'{out}/demo1.py'), (f'{out}/patch2.diff', f'{out}/demo2.py')]
     for a, b in (('patch3_bonus.diff', 'demo3_bonus.py'), ('extra_patch3.diff', 'extra_demo3.py')):
         if os.path.exists(f'{out}/{a}'): cands.append((f'{out}/{a}', f'{out}/{b}'))
-    n = 5
+    n = int(os.environ.get('SEED_BASE', '5'))
     for patch, demo in cands:
         n += 1
         if not (os.path.exists(patch) and os.path.exists(demo)):
